@@ -66,6 +66,11 @@ partial def bookOpOfJson (fx : Fix) (j : Json) : Except String Op := do
   | "pos" => pure .copy                        -- `+H` is `H.copy()`
   | "rsubC" => do pure (.rsubC (← j.getObjVal? "c" >>= ratOfJson))
   | "remap" => pure .remap
+  | "iaddSelf" => pure .iaddSelf
+  | "isubSelf" => pure .isubSelf
+  | "imulSelf" => pure .imulSelf
+  | "updateSelf" => pure .updateSelf
+  | "isubCopy" => pure .isubCopy
   | "updateM" => do
     -- the argument model is given by its own history on a fresh object
     let arg ← j.getObjVal? "arg"
